@@ -38,6 +38,7 @@ import (
 	"sync"
 	"time"
 
+	amp4 "github.com/abema/go-mp4"
 	"github.com/bluenviron/gortsplib/v5/pkg/description"
 	rtspformat "github.com/bluenviron/gortsplib/v5/pkg/format"
 	"github.com/bluenviron/mediacommon/v2/pkg/formats/fmp4"
@@ -1448,4 +1449,30 @@ func rbIsRagged(spec *rbSpec) bool {
 		}
 	}
 	return false
+}
+
+// ---------------------------------------------------------------------------------------------------------------
+// confirmed crash shared by C27 and C28
+
+// rbKeyTimescaleZero: segmentFMP4ReadHeader divides by mvhd.Timescale without checking it. A header whose mvhd
+// timescale reads 0 (e.g. a header torn inside mvhd and zero-filled by the file system) makes /list and /get panic
+// with "integer divide by zero"; for /list this happens in a goroutine started by parseSegments, which no
+// recover() in the HTTP stack can catch: the whole process dies.
+const rbKeyTimescaleZero = "c28-mvhd-timescale-zero-panic"
+
+// rbWouldDivideByZero predicts that class from the bytes alone, repeating the few steps of the header reader up to
+// the division (ftyp magic, skip, moov magic, mvhd payload decoded by the same library call). It is used only to
+// keep generated inputs out of the class while the finding is listed as known.
+func rbWouldDivideByZero(data []byte) bool {
+	if len(data) < 8 || string(data[4:8]) != "ftyp" {
+		return false
+	}
+	ftypSize := int(rbU32(data, 0))
+	if ftypSize < 0 || ftypSize+16 > len(data) || string(data[ftypSize+4:ftypSize+8]) != "moov" {
+		return false
+	}
+	moovSize := rbU32(data, ftypSize)
+	var mvhd amp4.Mvhd
+	_, err := amp4.Unmarshal(bytes.NewReader(data[ftypSize+16:]), uint64(moovSize-8), &mvhd, amp4.Context{})
+	return err == nil && mvhd.Timescale == 0
 }
